@@ -51,7 +51,7 @@ func init() {
 			"complete cross product; non-trivial = owner with a non-empty path or holder with an explicit property",
 		Assumptions: []string{"'equivalent' is IRI.Equals with scheme check (validated separately by C14)", "actors are given a specific actor type (Person/Service)"},
 		Bound: func(string) string {
-			return "complete: 252 owners x 8 names (round trips) + 252 owners (negative) + holder matrix 4 forms x 8 names x 3 states x 6 ids (same in both tiers)"
+			return "complete: 252 owners x 8 names (round trips) + 252 owners (negative) + holder matrix 4 forms x 8 names x 6 states (unset, IRI, collection, pages with partOf, collection with first/current) x 6 ids (same in both tiers)"
 		},
 		Shards: 8,
 		Run:    c15Run,
@@ -162,7 +162,8 @@ func c15Run(c *engine.Ctx) {
 					}
 					t.Ops(2)
 					cands := []ap.IRI{owner}
-					for _, seg := range []string{"b", "inboxx", "xinbox", "in", "likesandshares"} {
+					for _, seg := range []string{"b", "inboxx", "xinbox", "in", "likesandshares", "dislikes", "pre-shares", "\u0130nbox", "%C4%B0nbox", "l\u0130kes", "repl\u0131es",
+						"inbox%2F", "in%62ox.", "outbox;v=1", "inbox=", "l%69kes2"} {
 						cands = append(cands, ap.IRI(strings.TrimRight(string(owner), "/")+"/"+seg))
 					}
 					for _, cand := range cands {
@@ -195,7 +196,7 @@ func c15Run(c *engine.Ctx) {
 		ap.Likes: "Likes", ap.Shares: "Shares", ap.Replies: "Replies"}
 	for _, f := range forms {
 		for _, name := range names {
-			for _, state := range []string{"unset", "explicit-iri", "explicit-collection"} {
+			for _, state := range []string{"unset", "explicit-iri", "explicit-collection", "explicit-page-with-partOf", "explicit-ordered-page-with-partOf", "explicit-collection-with-first"} {
 				for _, id := range ids {
 					f, name, state, id := f, name, state, id
 					owns := f.actor || ap.OfObject.Contains(name)
@@ -211,6 +212,16 @@ func c15Run(c *engine.Ctx) {
 							explicit = ap.IRI("https://other.example/custom/" + string(name) + "-x")
 						case "explicit-collection":
 							explicit = &ap.OrderedCollection{ID: ap.IRI("https://other.example/col/" + string(name)), Type: ap.OrderedCollectionType}
+						case "explicit-page-with-partOf":
+							// an embedded page: the explicitly set collection is the page itself, not what it is part of
+							explicit = &ap.CollectionPage{ID: ap.IRI("https://other.example/col/" + string(name) + "?page=1"), Type: ap.CollectionPageType,
+								PartOf: ap.IRI("https://other.example/col/" + string(name)), Next: ap.IRI("https://other.example/col/" + string(name) + "?page=2")}
+						case "explicit-ordered-page-with-partOf":
+							explicit = &ap.OrderedCollectionPage{ID: ap.IRI("https://other.example/ocol/" + string(name) + "?page=1"), Type: ap.OrderedCollectionPageType,
+								PartOf: &ap.OrderedCollection{ID: ap.IRI("https://other.example/ocol/" + string(name)), Type: ap.OrderedCollectionType}}
+						case "explicit-collection-with-first":
+							explicit = &ap.Collection{ID: ap.IRI("https://other.example/c/" + string(name)), Type: ap.CollectionType, First: ap.IRI("https://other.example/c/" + string(name) + "?page=1"),
+								Current: ap.IRI(id)}
 						}
 						build := func() ap.Item {
 							if f.actor {
